@@ -491,7 +491,9 @@ func (g *c05Group) apply(ev string) *c05Fail {
 	defer c05Progress.Add(1)
 	switch ev {
 	case "W", "Wf", "Wi":
-		return g.write(ev)
+		if f := g.write(ev); f != nil {
+			return f
+		}
 	case "Kl", "Kf", "Kg", "Fl", "Ff", "Fg":
 		l := g.waitLeader()
 		if l == nil {
@@ -635,6 +637,26 @@ func (g *c05Group) ackedTotal() int {
 	return n
 }
 
+func (g *c05Group) describeRaft() string {
+	var b strings.Builder
+	for _, r := range g.reps {
+		if !r.up {
+			fmt.Fprintf(&b, "r%d down; ", r.id)
+			continue
+		}
+		st := r.node.VerifStatus()
+		first, last := r.node.Store.GetFirstLast()
+		fmt.Fprintf(&b, "r%d %v term %d commit %d applied %d log [%d,%d] snapIdx %d lead %d", r.id, st.RaftState, st.Term, st.Commit, st.Applied, first, last, r.node.SnapShotter.CommittedIndex, st.Lead)
+		if st.RaftState == raft.StateLeader {
+			for id, p := range st.Progress {
+				fmt.Fprintf(&b, " p%d{match %d next %d %v paused %v}", id-1, p.Match, p.Next, p.State, p.IsPaused())
+			}
+		}
+		b.WriteString("; ")
+	}
+	return b.String()
+}
+
 func (g *c05Group) describeWrites() string {
 	var b strings.Builder
 	for _, w := range g.writes {
@@ -675,7 +697,7 @@ func (g *c05Group) stepCheck() *c05Fail {
 				kind = "restart_lost_applied_writes"
 			}
 			return &c05Fail{Kind: kind,
-				Detail: fmt.Sprintf("replica %d (restarts %d, catching up %v) holds %d acknowledged writes, must hold %d: {%s}; writes [%s]", r.id, r.restarts, r.lagging, have, need, st.String(), g.describeWrites())}
+				Detail: fmt.Sprintf("replica %d (restarts %d, catching up %v) holds %d acknowledged writes, must hold %d: {%s}; writes [%s]; raft: %s", r.id, r.restarts, r.lagging, have, need, st.String(), g.describeWrites(), g.describeRaft())}
 		}
 		if have > r.floor {
 			r.floor = have
@@ -782,6 +804,7 @@ type c05Outcome struct {
 	MaxElect int64
 	CatchLog int
 	Log      []string
+	Stacks   string
 }
 
 var c05RunSeq int
@@ -821,6 +844,10 @@ func c05Run(base string, seq []string) (out c05Outcome) {
 		}
 		if f := g.stepCheck(); f != nil {
 			out.Fail, out.FailStep = f, i+1
+			if kit.Getenv("VERIF_C05_STACKS", "") != "" {
+				buf := make([]byte, 8<<20)
+				out.Stacks = string(buf[:runtime.Stack(buf, true)])
+			}
 			return
 		}
 	}
@@ -984,6 +1011,9 @@ func c05Main(t *testing.T, rep *kit.Report) {
 			fmt.Printf("C05-DEBUG %v fail=%v acked=%d routed=%d\n", seq, out.Fail != nil, out.Acked, out.Routed)
 			if out.Fail != nil {
 				fmt.Printf("C05-DEBUG   step %d %s: %s\n", out.FailStep, out.Fail.Kind, out.Fail.Detail)
+				if out.Stacks != "" {
+					fmt.Printf("C05-STACKS\n%s\n", out.Stacks)
+				}
 			}
 		}
 		if out.Fail != nil && out.Fail.Tool {
